@@ -139,6 +139,19 @@ theorem branch_none (l : List Nat) :
     (some (none, G l) : Option (Option Unit × ChannelMask))
       = ((pure none : M (Option Mask))).toOption.map (post (G l)) := rfl
 
+/-- `x << 1` in `usize` (a re-spelling of `x * 2`) -/
+theorem shl_usize_1 {x : Int} (h1 : 0 ≤ x) (h2 : x ≤ 4294967295) : Rt.shlC .usize x 1 = some (x * 2) := by
+  have hb : (0 : Int) ≤ 1 ∧ (1 : Int) < ((Rt.ITy.usize.bits : Nat) : Int) := by decide
+  simp only [Rt.shlC, hb, and_self, if_true]
+  have e : ((2 : Int) ^ (1 : Int).toNat) = 2 := by decide
+  rw [e]
+  simp only [Rt.wrap]
+  have e2 : ((2 : Int) ^ Rt.ITy.usize.bits) = 18446744073709551616 := by decide
+  have e3 : Rt.ITy.usize.signed = false := rfl
+  rw [e2, e3]
+  simp only [Bool.false_eq_true, if_false]
+  congr 1; omega
+
 theorem go_zero {σ} (f : Int → σ → Option σ) (i : Int) (s : σ) : Rt.forRangeM.go f 0 i s = some s := rfl
 theorem go_succ {σ} (f : Int → σ → Option σ) (n : Nat) (i : Int) (s : σ) :
     Rt.forRangeM.go f (n + 1) i s = (f i s).bind fun s' => Rt.forRangeM.go f n (i + 1) s' := by
@@ -153,10 +166,10 @@ macro "chain_simp" : tactic =>
       Int.cast_ofNat_Int, for_eq_go, go_zero, go_succ, Int.reduceSub, Int.reduceToNat, Int.reduceMul, Int.reduceAdd, Int.reduceLE, Int.reduceLT, Int.reduceEq, Int.reduceNe,
       decide_true, decide_false, and_self, and_true, and_false, true_and, false_and, if_true, if_false, ite_true, ite_false,
       Bool.false_eq_true, decide_eq_true_eq, reduceIte, or_self, or_true, true_or, or_false, false_or,
-      not_true_eq_false, not_false_eq_true, ne_eq, Int.natCast_zero, Int.natCast_one])
+      not_true_eq_false, not_false_eq_true, ne_eq, ite_not, shl_usize_1, Int.natCast_zero, Int.natCast_one])
 
 theorem dynamic_nat (rs : RegionState) (p : DynPlan) (hrs : rs.plan = .dyn p) (self : DynamicChannelPlan)
-    (l : List Nat) (cntl : Int) (h0 : 0 ≤ cntl) (n0 n1 : Nat) :
+    (l : List Nat) (cntl : Int) (h0 : 0 ≤ cntl) (h255 : cntl ≤ 255) (n0 n1 : Nat) :
     DynamicChannelPlan.channel_mask_update self (G l) cntl ⟨[(n0 : Int), (n1 : Int)]⟩
       = (channelMaskUpdate rs l cntl.toNat n0 n1).toOption.map (post (G l)) := by
   rcases (by omega : cntl = 0 ∨ cntl = 6 ∨ (cntl ≠ 0 ∧ cntl ≠ 6)) with rfl | rfl | ⟨h1, h2⟩
@@ -174,7 +187,7 @@ theorem dynamic_nat (rs : RegionState) (p : DynPlan) (hrs : rs.plan = .dyn p) (s
       simp [channelMaskUpdate, hrs, this]
     rw [hm, ← branch_none]
     simp only [DynamicChannelPlan.channel_mask_update, decide_eq_true_eq]
-    simp (disch := omega) only [if_neg, Option.pure_def]
+    simp (disch := omega) only [if_neg, if_pos, Option.pure_def]
 
 /-- `1 << i` in `u8` for the eight bank numbers -/
 theorem shl_facts : Rt.shlC .u8 1 0 = some 1 ∧ Rt.shlC .u8 1 1 = some 2 ∧ Rt.shlC .u8 1 2 = some 4 ∧ Rt.shlC .u8 1 3 = some 8 ∧
@@ -184,18 +197,18 @@ theorem shl_facts : Rt.shlC .u8 1 0 = some 1 ∧ Rt.shlC .u8 1 1 = some 2 ∧ Rt
 /-- ChMaskCntl 5: the bank value `if blocks & (1 << i) != 0 { 0xFF } else { 0x00 }` is the model's
 `if b0.testBit i then 255 else 0`, for every octet and each of the eight bits -/
 theorem bank_bits : ∀ b : Fin 256,
-    ((if Rt.andI (b.val : Int) 1 ≠ 0 then (255 : Int) else 0) = ((if b.val.testBit 0 then 255 else 0 : Nat) : Int)) ∧
-    ((if Rt.andI (b.val : Int) 2 ≠ 0 then (255 : Int) else 0) = ((if b.val.testBit 1 then 255 else 0 : Nat) : Int)) ∧
-    ((if Rt.andI (b.val : Int) 4 ≠ 0 then (255 : Int) else 0) = ((if b.val.testBit 2 then 255 else 0 : Nat) : Int)) ∧
-    ((if Rt.andI (b.val : Int) 8 ≠ 0 then (255 : Int) else 0) = ((if b.val.testBit 3 then 255 else 0 : Nat) : Int)) ∧
-    ((if Rt.andI (b.val : Int) 16 ≠ 0 then (255 : Int) else 0) = ((if b.val.testBit 4 then 255 else 0 : Nat) : Int)) ∧
-    ((if Rt.andI (b.val : Int) 32 ≠ 0 then (255 : Int) else 0) = ((if b.val.testBit 5 then 255 else 0 : Nat) : Int)) ∧
-    ((if Rt.andI (b.val : Int) 64 ≠ 0 then (255 : Int) else 0) = ((if b.val.testBit 6 then 255 else 0 : Nat) : Int)) ∧
-    ((if Rt.andI (b.val : Int) 128 ≠ 0 then (255 : Int) else 0) = ((if b.val.testBit 7 then 255 else 0 : Nat) : Int)) := by
+    ((if Rt.andI (b.val : Int) 1 = 0 then (0 : Int) else 255) = ((if b.val.testBit 0 then 255 else 0 : Nat) : Int)) ∧
+    ((if Rt.andI (b.val : Int) 2 = 0 then (0 : Int) else 255) = ((if b.val.testBit 1 then 255 else 0 : Nat) : Int)) ∧
+    ((if Rt.andI (b.val : Int) 4 = 0 then (0 : Int) else 255) = ((if b.val.testBit 2 then 255 else 0 : Nat) : Int)) ∧
+    ((if Rt.andI (b.val : Int) 8 = 0 then (0 : Int) else 255) = ((if b.val.testBit 3 then 255 else 0 : Nat) : Int)) ∧
+    ((if Rt.andI (b.val : Int) 16 = 0 then (0 : Int) else 255) = ((if b.val.testBit 4 then 255 else 0 : Nat) : Int)) ∧
+    ((if Rt.andI (b.val : Int) 32 = 0 then (0 : Int) else 255) = ((if b.val.testBit 5 then 255 else 0 : Nat) : Int)) ∧
+    ((if Rt.andI (b.val : Int) 64 = 0 then (0 : Int) else 255) = ((if b.val.testBit 6 then 255 else 0 : Nat) : Int)) ∧
+    ((if Rt.andI (b.val : Int) 128 = 0 then (0 : Int) else 255) = ((if b.val.testBit 7 then 255 else 0 : Nat) : Int)) := by
   decide +kernel
 
 theorem fixed_nat (rs : RegionState) (p : FixPlan) (hrs : rs.plan = .fix p) (self : FixedChannelPlan)
-    (l : List Nat) (cntl : Int) (h0 : 0 ≤ cntl) (n0 n1 : Nat) (hn0 : n0 < 256) :
+    (l : List Nat) (cntl : Int) (h0 : 0 ≤ cntl) (h255 : cntl ≤ 255) (n0 n1 : Nat) (hn0 : n0 < 256) :
     FixedChannelPlan.channel_mask_update self (G l) cntl ⟨[(n0 : Int), (n1 : Int)]⟩
       = (channelMaskUpdate rs l cntl.toNat n0 n1).toOption.map (post (G l)) := by
   rcases (by omega : cntl = 0 ∨ cntl = 1 ∨ cntl = 2 ∨ cntl = 3 ∨ cntl = 4 ∨ cntl = 5 ∨ cntl = 6 ∨ cntl = 7 ∨ 8 ≤ cntl)
@@ -244,7 +257,7 @@ theorem fixed_nat (rs : RegionState) (p : FixPlan) (hrs : rs.plan = .fix p) (sel
       simp [channelMaskUpdate, hrs, this]
     rw [hm, ← branch_none]
     simp only [FixedChannelPlan.channel_mask_update, decide_eq_true_eq]
-    simp (disch := omega) only [if_neg, Option.pure_def]
+    simp (disch := omega) only [if_neg, if_pos, Option.pure_def]
 
 end TieA.PlanMask
 
@@ -268,7 +281,7 @@ theorem tieA_fixed_channel_mask_update (rs : RegionState) (p : FixPlan) (hrs : r
           match r with
           | some m' => (some (), ⟨m'.map Int.ofNat⟩)
           | none => (none, m) := by
-  have := fixed_nat rs p hrs self (natsOf m._0) cntl hc0 b0.toNat b1.toNat (by omega)
+  have := fixed_nat rs p hrs self (natsOf m._0) cntl hc0 hc1 b0.toNat b1.toNat (by omega)
   rw [G_natsOf m hm, show ((b0.toNat : Nat) : Int) = b0 by omega, show ((b1.toNat : Nat) : Int) = b1 by omega] at this
   exact this
 
@@ -285,7 +298,7 @@ theorem tieA_dynamic_channel_mask_update (rs : RegionState) (p : DynPlan) (hrs :
           match r with
           | some m' => (some (), ⟨m'.map Int.ofNat⟩)
           | none => (none, m) := by
-  have := dynamic_nat rs p hrs self (natsOf m._0) cntl hc0 b0.toNat b1.toNat
+  have := dynamic_nat rs p hrs self (natsOf m._0) cntl hc0 hc1 b0.toNat b1.toNat
   rw [G_natsOf m hm, show ((b0.toNat : Nat) : Int) = b0 by omega, show ((b1.toNat : Nat) : Int) = b1 by omega] at this
   exact this
 
